@@ -8,7 +8,7 @@ PROP = "C11"
 MIN_OBLIGATIONS = 100
 TRUSTED = BASE_TRUSTED + ["A-STR: str(int) is the canonical decimal; max() over dict keys returns the greatest key"]
 ASSUMPTIONS = [
-    "Gateway.send is used through its contract (contracts/base_c.py), which is itself discharged under C12/C06",
+    "Gateway.send is used through its contract (contracts/base_c.py), which is discharged in this check as well (Gateway.send and the outgoing handlers are units of it)",
     "registry keys lie in 0..255 (heap invariant WF, preserved by every function under contract)",
 ]
 EXPLANATION = ("handle_i_id_request is symbolically executed from the parsed source once per protocol version against the "
@@ -24,11 +24,19 @@ def build(world):
         cls = incoming_cls(world, v)
         f = resolve(world, cls, "handle_i_id_request")
         units.append(Unit(f"{f.qualname}[{VTAG[v]}]", f.qualname, world.contracts[c11_c.Q], receiver=cls))
-    return units
+    # the id response goes out through Gateway.send and the handler is verified against send's contract: that contract is proved
+    # in this check too (Gateway.send and the outgoing handlers), so a change on the sending side is a stale helper here
+    from . import gateway_units as gu
+    have = {u.name for u in units}
+    return units + [u for u in gu.send_units(world) if u.name not in have]
 
 
 def rebuild_inlined(world, failing_helpers):
-    return build(world)
+    bad = {h["unit"].split("[")[0] for h in failing_helpers}
+    units = build(world)
+    for u in units:
+        u.no_contract_for = tuple(set(u.no_contract_for) | bad)
+    return units
 
 
 def native_check(version, node_ids, node_id, child_id, fail_write):
